@@ -86,7 +86,15 @@ func VP_C16_builders() {
 
 // vpLogYields stands in for log.Printf in VP_C16_answer_before_host_bytes: writing a log line takes
 // time (a busy log sink, a loaded machine), the other goroutines of the tunnel run meanwhile.
-func vpLogYields(format string, a ...interface{}) { vpRunTasks() }
+// (A stub rewrites the package's call sites, so it is in force for every harness of the package: the
+// switch keeps log lines inert everywhere else.)
+var vpLogLinesYield bool
+
+func vpLogYields(format string, a ...interface{}) {
+	if vpLogLinesYield {
+		vpRunTasks()
+	}
+}
 
 //vp:property C16 C06
 //vp:stub log.Printf = vpLogYields
@@ -96,6 +104,8 @@ func vpLogYields(format string, a ...interface{}) { vpRunTasks() }
 func VP_C16_answer_before_host_bytes() {
 	vpResetC01()
 	vpResetHandlers()
+	vpLogLinesYield = true
+	defer func() { vpLogLinesYield = false }()
 	vpBackendChunk = []byte{0x5A, 0x5B}
 	vpAssume(!vpBool("dialfail1"))
 	tr := vpScript(4, 0)
